@@ -152,6 +152,28 @@ def run(ctx: Ctx, rep: Report) -> None:
     table_ok = all(rfc.VERSION_BY_MPM[i] == i for i in plugin_ids)
     rep.check(k == PYINT and table_ok, "C19-R1", dec.site(creates[0]), "the message-processing model is selected by the integer value of the version field (version == MPM identifier for v1, v2c, v3)", f"identifier argument `{norm(ident) if ident is not None else None}` has kind {k}", key=f"{dec.key}|mpm-selector")
 
+    # the model that decodes this datagram was created from this datagram's version (never one kept from an earlier datagram)
+    from .walkmodel import assigned_value, reaching_defs
+
+    for node in own_nodes(dec.node):
+        if isinstance(node, ast.Call) and isinstance(node.func, ast.Attribute) and node.func.attr == "decode" and isinstance(node.func.value, ast.Name):
+            callees = [c for c in ctx.r.callees(dec, node) if isinstance(c, FuncInfo) and c.module.name.startswith("puresnmp_plugins.mpm")]
+            if not callees:
+                continue
+            recv = node.func.value.id
+            cnode = cfg_node_of(cfg, node)
+            rd = reaching_defs(cfg, recv, cnode) if cnode is not None else []
+            shared = any(isinstance(n, (ast.Nonlocal, ast.Global)) and recv in n.names for n in own_nodes(dec.node))
+            fresh = bool(rd) and all(assigned_value(d) in creates for d in rd) and not shared and recv not in reg.params
+            rep.check(
+                fresh,
+                "C19-R1",
+                dec.site(node),
+                "the message-processing model used for a datagram is created from that datagram's version on every path (a listener sees v1, v2c and v3 senders)",
+                "a model kept from an earlier datagram may be reused: a first datagram of another version pins the wrong model for the listener's lifetime" if not fresh else "",
+                key=f"{dec.key}|mpm-reused",
+            )
+
     # ------------------------------------------------------------ R2 / R3
     mproc_decodes = []
     for node in own_nodes(dec.node):
@@ -267,6 +289,14 @@ def run(ctx: Ctx, rep: Report) -> None:
         okr = bool(rets) and all(any(v is c for c in pcalls for v in [mdefs.expand(r.value)] if False) or (isinstance(r.value, ast.Name) and any(v in pcalls for v in mdefs.all_values(r.value.id))) or r.value in pcalls for r in rets)
         creds_ok = all(len(c.args) == 2 and norm(c.args[1]) == mdec.params[2] for c in pcalls)
         rep.check(okp and okr and creds_ok, "C19-R5", mdec.site(), f"{cls.name}.decode returns what the security model's incoming check (version + community, C07-R4) let through, on every path", key=f"{mdec.key}|community-check-bypass")
+    # the community / version refusal itself (same rule as C07-R4) for the SNMPv2c model
+    from .c07 import check_community_model
+
+    sm_base = ctx.u.cls("puresnmp.plugins.security:SecurityModel")
+    for mod2 in ctx.r.plugin_modules("puresnmp_plugins.security"):
+        if ctx.r.plugin_identifier(mod2) == 2:
+            for cls2 in [c for c in ctx.u.classes.values() if c.module is mod2 and ctx.r.is_subclass(c, sm_base)]:
+                check_community_model(ctx, rep, cls2, rfc.COMMUNITY_VERSION_BY_SECMODEL[2], rule="C19-R5")
     # TrapInfo
     ti = None
     for cand in ctx.u.classes.values():
